@@ -980,9 +980,61 @@ W16 = [dict(_world("W16d-non-ascii-only-in-comments-and-descriptions", _W16D_SDL
        _world("W16b-non-ascii-graphqlschema-py", _W16_SDL, "", {"target_file_path": "schema_types.py"}, strategy="graphqlschema"),
        _world("W16c-non-ascii-graphqlschema-sdl", _W16_SDL, "", {"target_file_path": "schema_out.graphql"}, strategy="graphqlschema")]
 
+# very long names (operations, fragments, types, enum values, fields): legal, and nothing may depend on how long a name is
+_LONG = "VeryLongNameThatGoesOnAndOnWellBeyondSixtyFourCharactersToSeeWhatHappensToIt"
+_W17_SDL = """
+type Query {
+  repositoryOwnersPullRequestsReviewThreadsCommentsReactionsByContentAndAuthor(first: Int): [%(L)sItem!]!
+  other: %(L)sItem
+}
+
+type %(L)sItem {
+  id: ID!
+  theFieldWhoseNameIsAlsoExtremelyLongSoThatNestedClassNamesBecomeEnormousToo: %(L)sItem
+  kind: %(L)sKind
+}
+
+enum %(L)sKind {
+  THE_FIRST_VALUE_WITH_A_RATHER_LONG_NAME_INDEED_MUCH_LONGER_THAN_USUAL_VALUES
+  B
+}
+
+input %(L)sFilter {
+  kind: %(L)sKind = B
+}
+""" % {"L": _LONG}
+_W17_Q = """
+query GetRepositoryOwnersPullRequestsReviewThreadsCommentsReactionsByContentAndAuthor($first: Int) {
+  repositoryOwnersPullRequestsReviewThreadsCommentsReactionsByContentAndAuthor(first: $first) {
+    ...%(L)sFragmentOnTheItem
+  }
+}
+
+query GetRepositoryOwnersPullRequestsReviewThreadsCommentsReactionsByContentAndAuthorAgain {
+  other {
+    id
+    theFieldWhoseNameIsAlsoExtremelyLongSoThatNestedClassNamesBecomeEnormousToo {
+      id
+      kind
+    }
+  }
+}
+
+fragment %(L)sFragmentOnTheItem on %(L)sItem {
+  id
+  kind
+}
+""" % {"L": _LONG}
+W17 = [_world("W17-very-long-names", _W17_SDL, _W17_Q),
+       _world("W17b-very-long-names-shorter-results", _W17_SDL, _W17_Q, {"plugins": ["ariadne_codegen.contrib.shorter_results.ShorterResultsPlugin"]})]
+
+# the sources live in directories literally named "~" and "$GRAPHQL_SOURCES" (legal names; the tool takes paths literally):
+# the generated files may not depend on what HOME / GRAPHQL_SOURCES happen to be in the environment
+W18 = dict(copy.deepcopy(W3), id="W18-sources-in-directories-named-tilde-and-dollar", literal_odd_dirs=True)
+
 
 def all_worlds() -> List[dict]:
-    return [W1, W2, W2b, W3, W4, W5, W7, W8, W8s, W9, W9k, W15] + W10 + W11 + W12 + W13 + W14 + W16
+    return [W1, W2, W2b, W3, W4, W5, W7, W8, W8s, W9, W9k, W15] + W10 + W11 + W12 + W13 + W14 + W16 + W17 + [W18]
 
 
 def by_id(wid: str) -> dict:
